@@ -1,6 +1,18 @@
 """Per-property manifest metadata.  bin/mkmanifest renders MANIFEST.json from this."""
 
 CHECKS = {
+    "C03": dict(
+        text="spec/AshCodec.tla is an ASH codec written from the protocol text (control bytes, LFSR randomisation, "
+             "CRC-CCITT, stuffing) and anchored to the documented example frames. TLC checks it against itself "
+             "(AshCodecMC: parse inverts encode, stuffing leaves no reserved byte but ESC, control-byte classes partition "
+             "0..255, every 1- and 2-bit corruption of every enumerated frame is rejected) and then judges vectors "
+             "recorded from the real bellows.ash code (to_bytes, bytes given to transport.write by _write_frame, "
+             "parse_frame verdicts, _stuff_bytes/_unstuff_bytes) over the property's domain via Trace_AshCodec.",
+        design_ref="3/C03",
+        note="Input-quantified codec property: no interesting state space, the TLA+ text is the independent reference and "
+             "TLC evaluates it on the enumerated domain. Trusted: the ASH text as transcribed (anchored by example frames).",
+        technique="TLA+ reference codec evaluated by TLC on enumerated vectors from the implementation (trace validation) + TLC self-consistency check of the codec spec",
+    ),
     "C15": dict(
         text="TLC explores spec/Multicast.tla exhaustively (all initial tables with each group at most once, "
              "N<=3 quick / N<=4 thorough, 3 groups, answers ok/reject/timeout) checking Mirror, FreeMirror, "
